@@ -114,5 +114,7 @@ def run(tier, seed, replay=None):
                          dict(cases=[list(x) for x in (cases[:ci] if how == 'history' else [case])], event=rec))
         else:
             ck.note('rejection of %s not reproduced on re-run (neither alone nor after its process history)' % cls)
+    if not replay and not ck.violations:
+        vlib.concurrent_pass(ck, wd, 'Trace_Cubic', 'Trace_Cubic.cfg', lambda cp, tp: [exe, cp, tp], write_cases, [c for c in cases if c[0] != 'batchinv' or c[1] <= 64], 'cubic-extension operations', max_cases=1500, min_chunk=60)
     ck.cov['cases'] = len(cases); ck.cov['rejected_records'] = len(v['rejected'])
     return ck.finish()
